@@ -189,6 +189,11 @@ pub enum Ev<'a> {
     Healed {
         tick: u64,
     },
+    /// everything obtained and acknowledged, links empty, >= 3 s of virtual time passed since
+    /// the last datagram, application drained
+    Quiescent {
+        tick: u64,
+    },
     TickEnd {
         tick: u64,
     },
